@@ -83,6 +83,20 @@ var profiles = map[string]profile{
 		gen:   func(r *rand.Rand, k int) GenCfg { return sleepGen(r) },
 		plays: func(r *rand.Rand, k int) []PlayOpts { return sleepPlays() },
 	},
+	// experiment: many validators of equal weight and a light forker, naps and partitions: an Atropos that does not descend from the previous one
+	"xwide": {
+		gen: func(r *rand.Rand, k int) GenCfg {
+			n := 7 + r.Intn(3)
+			w := make([]int, n+1)
+			for i := range w {
+				w[i] = 5
+			}
+			w[n] = 1
+			return GenCfg{Weights: w, Epochs: 1, EpochEvents: 14 * n, MaxParents: 2 + r.Intn(3), Cheaters: 1, ForkProb: 0.3, SiblingForks: 0.5,
+				NapProb: []float64{0.05, 0.1, 0.2}[r.Intn(3)], Partition: r.Intn(2) == 0, OldParent: []float64{0.1, 0.3}[r.Intn(2)], Lag: 0.2}
+		},
+		plays: func(r *rand.Rand, k int) []PlayOpts { return []PlayOpts{{Order: "topo"}} },
+	},
 	// experiment: dense DAGs with a slow first validator
 	"xlag": {
 		gen: func(r *rand.Rand, k int) GenCfg {
